@@ -102,6 +102,10 @@ def run(ctx: Ctx):
     t = ast.unparse(bfs.node)
     ctx.ob("C08-O2", "R21 search discipline", bfs, "search follows only arcs with positive residual to unvisited nodes, marks on enqueue, FIFO", "residual > 0" in t and "not in visited" in t and "visited.add(" in t and "popleft()" in t, "", node=bfs.node)
 
+    # max-flow = min-cut is certified by the failing search and by nothing else: the loop runs until bfs() finds no path
+    mloops = [n for n in own_nodes(f.node) if isinstance(n, ast.While) and any(isinstance(c, ast.Call) and ast.unparse(c.func) == "bfs" for c in ast.walk(n.test))]
+    for ml in mloops:
+        ctx.ob("C08-O3", "R2 BUDGET-EXIT", f, "the augmenting loop ends only when the search finds no path", ast.unparse(ml.test) in ("(path := bfs())", "path := bfs()"), f"`while {ast.unparse(ml.test)}`: any other way out of the loop leaves an augmenting path in the residual network whenever the extra condition is wrong (a bound computed from net capacities, a counter ...)", node=ml)
     # the degenerate query source == sink is rejected (the search would return the one-node path for ever)
     fcfg0 = cfg_of(f.node)
     guard0 = [n for n in own_nodes(f.node) if isinstance(n, ast.If) and ast.unparse(n.test) in ("source == sink", "sink == source") and any(isinstance(x, ast.Raise) for x in n.body)]
@@ -241,6 +245,15 @@ def _v_same_terminals_accepted(tree):
     M.replace_stmt(g, lambda s: isinstance(s, ast.If) and M.src_is(s.test, "source == sink"), [])
 
 
+def _v_stop_at_net_capacity(tree):
+    g = M.find_func(tree, "max_flow")
+    w = [n for n in ast.walk(g) if isinstance(n, ast.While) and M.src_has(n.test, "bfs()")]
+    if not w:
+        raise M.Skip("augmenting loop not found")
+    w[0].test = M.expr("total_flow < flow_bound and (path := bfs())")
+    M.replace_stmt(g, lambda s: isinstance(s, ast.Assign) and M.src_is(s.targets[0], "total_flow"), lambda s: M.stmts("flow_bound = sum(capacity[source].values()) - sum(capacity[v][source] for v in capacity)") + [s])
+
+
 def _v_dead_end_memory(tree):
     g = M.find_func(tree, "max_flow")
     M.replace_stmt(g, lambda s: isinstance(s, ast.FunctionDef) and s.name == "bfs", lambda s: M.stmts("dead_ends = set()") + [s])
@@ -283,6 +296,7 @@ VARIANTS = [
     M.Variant("arcs pruned by a source-reachability pre-pass that stops at zero-capacity arcs (seed C08-C)", FL, _v_prune_unreachable, "C08-O5"),
     M.Variant("reverse residual key created only the first time a node is seen (seed C08-E)", FL, _v_reverse_key_first_time_only, "C08-O1"),
     M.Variant("source == sink is not rejected (original defect: the call never returns)", FL, _v_same_terminals_accepted, "C08-O6"),
+    M.Variant("augmentation stops once a bound computed from net capacities is reached (seed C08-I)", FL, _v_stop_at_net_capacity, "C08-O3"),
     M.Variant("twin: reformat", FL, _t_reformat, None),
     M.Variant("twin: explicit symmetric adjacency sets iterated by the search", FL, _t_adj_sets, None),
 ]
